@@ -511,6 +511,7 @@ impl File {
             stamp: row.get("stamp")?,
             csum: row.get::<&str, Option<String>>("csum")?.unwrap_or_default(),
         };
+        vemit!("RowLoad", "id": f.id);
         if f.name.as_str() == ALWAYS {
             if let Some(env_runid) = runid {
                 f.changed_runid = Some(
